@@ -52,10 +52,11 @@ func (c *Ctx) rulesR4resolver() {
 	ts := c.fnOpt(pm + ":DefaultRelationsResolver.TargetStates")
 	pr := c.fnOpt(pm + ":DefaultRelationsResolver.parseRequire")
 	sb := c.fnOpt(pm + ":DefaultRelationsResolver.stateBlockedBy")
-	if ts == nil || pr == nil || sb == nil {
-		c.undecided("C02.reqfirst: TargetStates / parseRequire / stateBlockedBy not found")
+	if ts == nil || pr == nil {
+		c.undecided("C02.reqfirst: TargetStates / parseRequire not found")
 		return
 	}
+	fRem := c.field(pm, "State", "Remove")
 	// order-only transformers
 	orderOnly := map[string]bool{"slicesReverse": true, "slicesUniq": true, "Clone": true}
 	var fromPR func(v ssa.Value, at ssa.Instruction, d int) (bool, string)
@@ -139,23 +140,52 @@ func (c *Ctx) rulesR4resolver() {
 					continue
 				}
 				clo := mc.Fn.(*ssa.Function)
-				sites := c.sitesIn(clo, funcKey(sb))
-				// or in a private method the predicate delegates to
-				for _, b2 := range clo.Blocks {
-					for _, in2 := range b2.Instrs {
-						if ci, ok := in2.(ssa.CallInstruction); ok {
-							if cal := ci.Common().StaticCallee(); cal != nil && cal != sb && cal.Parent() == nil && len(cal.Blocks) > 0 && c.hostedBy(cal, ts) {
-								sites = append(sites, c.sitesIn(cal, funcKey(sb))...)
+				var sites []ssa.CallInstruction
+				if sb != nil {
+					sites = c.sitesIn(clo, funcKey(sb))
+					// or in a private method the predicate delegates to
+					for _, b2 := range clo.Blocks {
+						for _, in2 := range b2.Instrs {
+							if ci, ok := in2.(ssa.CallInstruction); ok {
+								if cal := ci.Common().StaticCallee(); cal != nil && cal != sb && cal.Parent() == nil && len(cal.Blocks) > 0 && c.hostedBy(cal, ts) {
+									sites = append(sites, c.sitesIn(cal, funcKey(sb))...)
+								}
 							}
 						}
 					}
 				}
-				if len(sites) == 0 {
+				// stateBlockedBy inlined: the predicate itself walks a list and asks
+				// Contains(State.Remove, <candidate>)
+				type inl struct {
+					at  ssa.Instruction
+					lst ssa.Value
+				}
+				var inlined []inl
+				if sb == nil && fRem != nil && len(clo.Params) > 0 {
+					for _, l := range rangeLoops(clo) {
+						for bb := range l.body {
+							for _, in2 := range bb.Instrs {
+								cc, ok := in2.(*ssa.Call)
+								if !ok || calleeName(&cc.Call) != "Contains" || len(cc.Call.Args) != 2 {
+									continue
+								}
+								if elemOfField(cc.Call.Args[0], fRem, 0) && cc.Call.Args[1] == ssa.Value(clo.Params[0]) && l.x != nil {
+									inlined = append(inlined, inl{cc, l.x})
+								}
+							}
+						}
+					}
+				}
+				if len(sites) == 0 && len(inlined) == 0 {
 					continue
 				}
 				n++
 				good, why := fromPR(call.Call.Args[0], call, 0)
 				c.check(good, "C02.reqfirst", fmt.Sprintf("TargetStates: blocked-by scan#%d filters a parseRequire result", n), call.Pos(), "the candidates of the blocked-by scan are not Require-closed: "+why)
+				for i, il := range inlined {
+					good, why := fromPR(il.lst, call, 0)
+					c.check(good, "C02.reqfirst", fmt.Sprintf("TargetStates: blocked-by scan#%d takes blockers from a parseRequire result%s", n, nth(i)), il.at.Pos(), "the blockers consulted by the blocked-by scan are not Require-closed: "+why)
+				}
 				// the list blockers are taken from: stateBlockedBy's list argument
 				for i, s := range sites {
 					args := s.Common().Args
